@@ -125,6 +125,11 @@ pub unsafe extern "C" fn clock_gettime(clk: i32, ts: *mut [i64; 2]) -> i32 {
 }
 
 pub fn noop() {}
+/// Logging environment gets empty bodies: entering / leaving / closing a tracing span.
+#[cfg(kani)]
+pub fn noop_span(_: &tracing::Span) {}
+#[cfg(kani)]
+pub fn noop_span_drop(_: &mut tracing::Span) {}
 pub fn stub_format(_: std::fmt::Arguments<'_>) -> String { String::new() }
 
 // ------------------------------------------------------------------ futures
